@@ -23,7 +23,8 @@ CONSTANTS
   MaxFaults,    \* bound on injected I/O faults
   Concurrent,   \* TRUE: worker steps interleave; FALSE: the worker runs to idle after every call
   WithRejects,  \* TRUE: arguments the reference rejects are offered too
-  ExportOneIn   \* behaviour export prints one terminal behaviour in this many (1 = all)
+  ExportOneIn,  \* behaviour export prints one terminal behaviour in this many (1 = all)
+  RecoveryCrashes \* TRUE: a crash may also interrupt the recovery that follows a crash
 
 
 VARIABLES
@@ -131,8 +132,36 @@ ACrash ==
             IN \* x: what the specification expects of this open (lets the replay sample both outcomes)
                Take(y, <<step, [a |-> "open", cfg |-> cfg, x |-> o.res]>> \o y.steps, [g EXCEPT !.crashes = @ + 1])
 
+\* the machine dies, recovery starts, performs only the first k of its file-modifying calls, and the
+\* machine dies again (power loss: the new head, if written, is not durable); then recovery runs to the end
+ACrashInRecovery ==
+  /\ s.up /\ g.crashes < MaxCrash /\ RecoveryCrashes
+  /\ LET L == Linked(s.fs) IN
+     \E img \in [1..Len(L) -> UNION {ImageChoices(L[j]) : j \in 1..Len(L)}] :
+       /\ \A j \in 1..Len(L) : img[j] \in ImageChoices(L[j])
+       /\ \E cfg \in Cfgs :
+            LET d1 == [Down EXCEPT !.fs = ApplyImage(s.fs, img), !.inst = s.inst]
+                cev == [e |-> "crash", kind |-> "power", img |-> ImgDesc(s.fs, img), seq |-> 0]
+                o1 == Recover(d1.fs, cfg, d1.inst)
+                mods == SelectSeq(o1.evs, Modifying)
+            IN /\ o1.res = "ok" /\ Len(mods) >= 1
+               /\ \E k \in 1..Len(mods), keepHead \in BOOLEAN :
+                    LET fsk == ApplyFsEvents(d1.fs, mods, k, o1.s.st)
+                        \* second power loss: everything durable survives; an unsynced new head may or may not
+                        L2 == Linked(fsk)
+                        img2 == [j \in 1..Len(L2) |-> [n |-> IF keepHead THEN Len(L2[j].recs) ELSE L2[j].dur, tail |-> "none"]]
+                        d2 == [Down EXCEPT !.fs = ApplyImage(fsk, img2), !.inst = s.inst]
+                        cev2 == [e |-> "crash", kind |-> "power", img |-> ImgDesc(fsk, img2), seq |-> 0]
+                        o2 == CallOpen(d2, cfg)
+                        partial == <<EvB("open", cfg)>> \o EventsUpTo(o1.evs, k)
+                        y == IF o2.res = "ok" THEN Settle([s |-> o2.s, evs |-> <<cev>> \o partial \o <<cev2>> \o o2.evs])
+                             ELSE [s |-> o2.s, evs |-> <<cev>> \o partial \o <<cev2>> \o o2.evs, steps |-> <<>>]
+                        st1 == [a |-> "crash", kind |-> "power", img |-> [j \in 1..Len(L) |-> <<L[j].ck, img[j].n, img[j].tail>>]]
+                        st2 == [a |-> "crash_in_open", cfg |-> cfg, k |-> k, keep |-> keepHead]
+                    IN Take(y, <<st1, st2, [a |-> "open", cfg |-> cfg, x |-> o2.res]>> \o y.steps, [g EXCEPT !.crashes = @ + 1])
+
 Next == AVote \/ AAppend \/ ATruncate \/ APurge \/ ACommit \/ AUser \/ AFlush
-        \/ AWorker \/ AWorkerFault \/ AReopen \/ ACrash
+        \/ AWorker \/ AWorkerFault \/ AReopen \/ ACrash \/ ACrashInRecovery
 
 Spec == Init /\ [][Next]_vars
 
